@@ -346,3 +346,133 @@ jAGGiQIwHFj+dJZYUJR786osByBelJYsVZd2GbHQu209b5RCmGQ21gpSAk9QZW4B
         assert_eq!(rap.webauthn_att_ca_list, Some(att_ca_list_ex));
     }
 }
+
+/// Verification hooks (compiled only with the cargo feature `verif-hooks`): build
+/// `AccountPolicy` values from plain fields, fold them with the real
+/// `ResolvedAccountPolicy::fold_from`, and read the result back as plain fields.
+#[cfg(feature = "verif-hooks")]
+pub mod verif {
+    use super::*;
+    use webauthn_rs_core::proto::AttestationCaListBuilder;
+
+    /// One CA of an attestation CA list: `aaguids == None` means "blanket allow".
+    #[derive(Debug, Clone)]
+    pub struct CaSpec {
+        pub pem: Vec<u8>,
+        pub aaguids: Option<Vec<Uuid>>,
+    }
+
+    #[derive(Debug, Clone)]
+    pub struct PolicySpec {
+        pub privilege_expiry: u32,
+        pub authsession_expiry: u32,
+        pub pw_min_length: u32,
+        pub credential_policy: CredentialType,
+        pub ca_list: Option<Vec<CaSpec>>,
+        pub limit_search_max_filter_test: Option<u64>,
+        pub limit_search_max_results: Option<u64>,
+        pub allow_primary_cred_fallback: Option<bool>,
+    }
+
+    /// (key id of the CA, blanket allow, allowed aaguids)
+    pub type CaDump = Vec<(Vec<u8>, bool, Vec<Uuid>)>;
+
+    #[derive(Debug, Clone, PartialEq, Eq)]
+    pub struct ResolvedDump {
+        pub privilege_expiry: u32,
+        pub authsession_expiry: u32,
+        pub pw_min_length: u32,
+        pub pw_max_length: u32,
+        pub credential_policy: CredentialType,
+        pub ca_list: Option<CaDump>,
+        pub limit_search_max_filter_test: Option<u64>,
+        pub limit_search_max_results: Option<u64>,
+        pub allow_primary_cred_fallback: Option<bool>,
+    }
+
+    pub fn build_ca_list(cas: &[CaSpec]) -> Result<AttestationCaList, String> {
+        let mut builder = AttestationCaListBuilder::new();
+        for ca in cas {
+            if let Some(ids) = &ca.aaguids {
+                for id in ids {
+                    builder
+                        .insert_device_pem(&ca.pem, *id, format!("dev-{id}"), Default::default())
+                        .map_err(|e| format!("{e:?}"))?;
+                }
+            }
+        }
+        let mut list = builder.build();
+        for ca in cas {
+            if ca.aaguids.is_none() {
+                let single =
+                    AttestationCaList::try_from(ca.pem.as_slice()).map_err(|e| format!("{e:?}"))?;
+                list.union(&single);
+            }
+        }
+        Ok(list)
+    }
+
+    pub fn dump_ca_list(list: &AttestationCaList) -> CaDump {
+        list.cas()
+            .iter()
+            .map(|(kid, ca)| {
+                (
+                    kid.as_slice().to_vec(),
+                    ca.blanket_allow(),
+                    ca.aaguids().keys().copied().collect(),
+                )
+            })
+            .collect()
+    }
+
+    /// Opaque handle on a built (crate-private) `AccountPolicy`.
+    #[derive(Clone)]
+    pub struct Policy(AccountPolicy);
+
+    pub fn build_policy(spec: &PolicySpec) -> Result<Policy, String> {
+        let webauthn_att_ca_list = match &spec.ca_list {
+            Some(cas) => Some(build_ca_list(cas)?),
+            None => None,
+        };
+        Ok(Policy(AccountPolicy {
+            privilege_expiry: spec.privilege_expiry,
+            authsession_expiry: spec.authsession_expiry,
+            pw_min_length: spec.pw_min_length,
+            credential_policy: spec.credential_policy,
+            webauthn_att_ca_list,
+            limit_search_max_filter_test: spec.limit_search_max_filter_test,
+            limit_search_max_results: spec.limit_search_max_results,
+            allow_primary_cred_fallback: spec.allow_primary_cred_fallback,
+        }))
+    }
+
+    fn dump_resolved(r: &ResolvedAccountPolicy) -> ResolvedDump {
+        ResolvedDump {
+            privilege_expiry: r.privilege_expiry(),
+            authsession_expiry: r.authsession_expiry(),
+            pw_min_length: r.pw_min_length(),
+            pw_max_length: r.pw_max_length(),
+            credential_policy: r.credential_policy(),
+            ca_list: r.webauthn_attestation_ca_list().map(dump_ca_list),
+            limit_search_max_filter_test: r.limit_search_max_filter_test(),
+            limit_search_max_results: r.limit_search_max_results(),
+            allow_primary_cred_fallback: r.allow_primary_cred_fallback(),
+        }
+    }
+
+    /// Build every policy from its plain form and fold them, in the given order, with the real
+    /// `ResolvedAccountPolicy::fold_from`.
+    pub fn fold(specs: &[PolicySpec]) -> Result<ResolvedDump, String> {
+        let pols = specs.iter().map(build_policy).collect::<Result<Vec<_>, _>>()?;
+        Ok(dump_resolved(&ResolvedAccountPolicy::fold_from(
+            pols.into_iter().map(|p| p.0),
+        )))
+    }
+
+    /// Fold already built policies (cheap to clone; avoids re-parsing certificates per permutation).
+    pub fn fold_built(pols: Vec<Policy>) -> ResolvedDump {
+        dump_resolved(&ResolvedAccountPolicy::fold_from(
+            pols.into_iter().map(|p| p.0),
+        ))
+    }
+}
